@@ -30,6 +30,45 @@ def case_list(fs, tier='thorough'):
     return out
 
 
+# properties whose statement quantifies over the range forms by name: their decision also needs "range form == the single
+# forms in order" for the range forms of the single operations that carry the property
+RANGE_PROPS = ('C01', 'C05', 'C09', 'C10', 'C11', 'C12', 'C13')
+QUICK_RANGE_OPS = {'C01': ('find',), 'C05': ('insert',), 'C09': ('insert',)}
+
+
+def single_of(opname):
+    """the single operation a range form repeats: insert_range -> insert, find_range_fill__it -> find, ..."""
+    return opname.split('__')[0].split('_')[0]
+
+
+def rel_units(cn, op, sp, infos, gen, tier, ttl_positive_only=False):
+    import rel
+    units = []
+    cases = [None]
+    if cn in ('ut_map', 'ut_set'):
+        pf = rel.CONF[cn][0]
+        cases = [(0, '%s_ttl(&s1) > 0' % pf)] + ([] if ttl_positive_only else [(1, '!(%s_ttl(&s1) > 0)' % pf)])
+    # quick: the three heaviest containers compare ONE element for insert_range (the loop is uniform),
+    # lfuda at the default ratio.  thorough: the quick units plus two elements for the heavy ones and
+    # capacity <= 3 for the light containers
+    heavy = cn in ('tlru_cache', 'utlru_cache', 'lfuda_cache') and op[0].startswith('insert')
+    xa = 's1.m_dynamic_age_ratio == 0.5f' if cn == 'lfuda_cache' else None
+    for case in cases:
+        # ut_map/ut_set have no capacity: MAXCAP bounds the stored entries, and the pre-state must be able to hold an
+        # (expired) entry besides the range's keys, so these run at MAXCAP 3 also in the quick tier
+        mc = 3 if cn in ('ut_map', 'ut_set') else 2
+        units.append(rel.RelUnit(cn, op, mc, sp, infos[cn], gen, timeout=800 if tier == 'quick' else 7200, case=case, rlen=1 if heavy else rel.RLEN, extra_assume=xa))
+        if cn in LIGHT and mc != 3 and op[0].startswith('insert'):
+            # a range LONGER than the capacity with a repeated key: three elements at capacity <= 2
+            units.append(rel.RelUnit(cn, op, 2, sp, infos[cn], gen, timeout=800 if tier == 'quick' else 7200, case=case, rlen=3, extra_assume=xa))
+        if tier == 'thorough':
+            if heavy:
+                units.append(rel.RelUnit(cn, op, 2, sp, infos[cn], gen, timeout=7200, case=case, rlen=rel.RLEN, extra_assume=xa))
+            elif cn in LIGHT and mc != 3:
+                units.append(rel.RelUnit(cn, op, 3, sp, infos[cn], gen, timeout=7200, case=case, rlen=rel.RLEN, extra_assume=xa))
+    return units
+
+
 def load(gdir):
     gen = os.path.join(gdir, 'gen')
     infos = {i['cname']: i for i in json.load(open(os.path.join(gen, 'info.json')))}
@@ -75,25 +114,7 @@ def units_for(prop, tier, gdir):
             notes['containers'].append(cn)
             for op in rel.ops_for(cn):
                 notes['functions'].append('%s__%s' % (cn, op[0]))
-                cases = [None]
-                if cn in ('ut_map', 'ut_set'):
-                    pf = rel.CONF[cn][0]
-                    cases = [(0, '%s_ttl(&s1) > 0' % pf), (1, '!(%s_ttl(&s1) > 0)' % pf)]
-                # quick: the three heaviest containers compare ONE element for insert_range (the loop is uniform),
-                # lfuda at the default ratio.  thorough: the quick units plus two elements for the heavy ones and
-                # capacity <= 3 for the light containers
-                heavy = cn in ('tlru_cache', 'utlru_cache', 'lfuda_cache') and op[0].startswith('insert')
-                xa = 's1.m_dynamic_age_ratio == 0.5f' if cn == 'lfuda_cache' else None
-                for case in cases:
-                    # ut_map/ut_set have no capacity: MAXCAP bounds the stored entries, and the pre-state must be able to hold an
-                    # (expired) entry besides the range's keys, so these run at MAXCAP 3 also in the quick tier
-                    mc = 3 if cn in ('ut_map', 'ut_set') else 2
-                    units.append(rel.RelUnit(cn, op, mc, sp, infos[cn], gen, timeout=800 if tier == 'quick' else 7200, case=case, rlen=1 if heavy else rel.RLEN, extra_assume=xa))
-                    if tier == 'thorough':
-                        if heavy:
-                            units.append(rel.RelUnit(cn, op, 2, sp, infos[cn], gen, timeout=7200, case=case, rlen=rel.RLEN, extra_assume=xa))
-                        elif cn in LIGHT and mc != 3:
-                            units.append(rel.RelUnit(cn, op, 3, sp, infos[cn], gen, timeout=7200, case=case, rlen=rel.RLEN, extra_assume=xa))
+                units += rel_units(cn, op, sp, infos, gen, tier)
         return units, notes
     for cn, sp in specs.items():
         if prop not in sp.props:
@@ -119,6 +140,10 @@ def units_for(prop, tier, gdir):
                 if cn in LIGHT:
                     for case in case_list(sp.funcs[fn], tier):
                         units.append(engine.Unit(cn, fn, 3, sp, infos[cn], gen, timeout=7200, sym=False, case=case, rangelen=2))
+                        if 'SPEC_RANGE_LEN' not in ' '.join(c.expr for c in sp.funcs[fn].clauses):
+                            # larger capacities from the symmetry-reduced pre-state (cost grows gently with it)
+                            for bigcap in (4, 5, 6):
+                                units.append(engine.Unit(cn, fn, bigcap, sp, infos[cn], gen, timeout=7200, sym=True, case=case, rangelen=1))
                 elif cn in ('tlru_cache', 'utlru_cache') and qcap != 3 and 'SPEC_RANGE_LEN' not in ' '.join(c.expr for c in sp.funcs[fn].clauses):
                     for case in case_list(sp.funcs[fn], tier):
                         units.append(engine.Unit(cn, fn, 3, sp, infos[cn], gen, timeout=7200, sym=True, case=case, rangelen=1))
@@ -127,6 +152,25 @@ def units_for(prop, tier, gdir):
                         units.append(engine.Unit(cn, fn, qcap, sp, infos[cn], gen, timeout=7200, sym=True, case=case, rangelen=1))
             if tier == 'thorough' and sp.funcs[fn].opts.get('modular') == 'yes':
                 units.append(engine.Unit(cn, fn, 2, sp, infos[cn], gen, timeout=3600, modular=True))
+    if prop in RANGE_PROPS:
+        # the range forms of the single operations that carry this property: the relational units of C18 decide that a range
+        # form has the effect of the single forms in order, so what the contracts establish for the single forms holds for the
+        # range forms too.  (ut_map/ut_set with a non-positive TTL: decided under C18, known finding F5.)
+        import rel
+        for cn in list(notes['containers']):
+            if cn not in rel.CONF:
+                continue
+            sp = specs[cn]
+            for op in rel.ops_for(cn):
+                fs = sp.funcs.get('%s__%s' % (cn, single_of(op[0])))
+                if not fs or not any(prop in c.tags for c in fs.clauses if c.kind == 'ensures'):
+                    continue
+                if tier == 'quick' and prop in QUICK_RANGE_OPS and single_of(op[0]) not in QUICK_RANGE_OPS[prop]:
+                    continue  # 15-minute budget of a quick check: the range forms the statement is about; all of them in thorough
+                notes['functions'].append('%s__%s' % (cn, op[0]))
+                for u in rel_units(cn, op, sp, infos, gen, tier, ttl_positive_only=True):
+                    u.also_for = prop
+                    units.append(u)
     # route U: unbounded-capacity units (cbmc --z3) for the containers that have them; the quick tier runs the
     # ones that finish in about two minutes, the thorough tier all of them
     import uroute
